@@ -153,6 +153,7 @@ def process_suite(rep, mod, suite, model_ok, max_shrink=3):
     if suite.exhaustive:
         rep.exhaustive.append(suite.name)
     mon_fail, dis = [], []
+    confirmed_hangs = 0
     for c in cases:
         il = impl.get(c.cid, ["<no output>"])
         for op in c.ops:
@@ -162,11 +163,13 @@ def process_suite(rep, mod, suite, model_ok, max_shrink=3):
         sl = spec.get(c.cid) if suite.spec_engine else None
         if suite.spec_engine and model_ok and sl is None:
             sl = ["<no output>"]
-        if any("rc=-999" in l for l in il):
+        if any("rc=-999" in l for l in il) and confirmed_hangs < 3:
             # a step that did not return in the batch run: confirm it with the case run on its own (a
             # starved machine can make a deterministic engine look blocked)
             il_again = run_impl(suite, [c], 90).get(c.cid, ["<no output>"])
-            if not any("rc=-999" in l for l in il_again):
+            if any("rc=-999" in l for l in il_again):
+                confirmed_hangs += 1      # (after three confirmed ones the rest are taken as they are)
+            else:
                 rep.notes.append("suite %s case %s: looked blocked in the batch run, ran normally on its own (machine load)" % (suite.name, c.cid))
             il = il_again
             impl[c.cid] = il_again
